@@ -38,7 +38,7 @@ func allocExpr(g *egen, d int) string {
 		}
 		return fmt.Sprintf("(%s..%s)", small(), small())
 	}
-	switch rng.Intn(9) {
+	switch rng.Intn(10) {
 	case 0:
 		return fmt.Sprintf("map(%s, {%s})", allocExpr(g, d-1), g.pick("#", "1", "[#]", "[#, #]", "1..2"))
 	case 1:
@@ -60,6 +60,9 @@ func allocExpr(g *egen, d int) string {
 		return fmt.Sprintf("(%s ? %s : %s)", g.pick("B", "B2", "true"), allocExpr(g, d-1), allocExpr(g, d-1))
 	case 7:
 		return fmt.Sprintf("count(%s, {len([#, #]) > 0})", allocExpr(g, d-1))
+	case 8:
+		// sums: the LAST allocation decides (a range, a literal, a builtin result)
+		return fmt.Sprintf("(len(%s) + len(%s))", allocExpr(g, d-1), allocExpr(g, 0))
 	}
 	return fmt.Sprintf("map(%s..%s, {%s})", small(), small(), allocExpr(g, d-1))
 }
@@ -93,6 +96,8 @@ func runC06() {
 	fixed := []string{
 		"[len(I16..1), len(1..8), len(1..8)]", "len(1..I16)", "[1..3, 3..1, 5..5]", "map(1..3, {[#, #]})",
 		"filter(1..10, {# % 2 == 0})", "{a: [1, 2], b: {c: 1..2}}", "len(I..I)", "(I - 1)..(I - 9)", "map(3..1, {#})",
+		"len(1..(I + 3)) + len(1..(I + 3))", "len([I, S]) + len(1..(I + 2))", "len(map([1, 2], {#})) + len(0..I)", "len(0..I) + len([I, S])",
+		"len(1..6) + len(1..(I + 2))", "len(map(1..(I + 1), {[1, 2, 3]}))", "len(filter(1..8, {# > 2})) + len(2..I)",
 	}
 	srcs := append([]string{}, fixed...)
 	for i := 0; i < nExpr; i++ {
